@@ -107,11 +107,11 @@ Proof.
     rewrite (A rr vv w G F). reflexivity.
 Qed.
 
-Ltac body_tac BODY x2 TN RT :=
+Ltac body_tac cn1 BODY x2 TN RT :=
   match goal with
-  | [ |- (let '(w3, b) := exec _ _ ?r ?k ?acts ?pc ?W in _) = _ ] =>
+  | [ |- context [ exec _ cn1 ?r ?k ?acts ?pc ?W ] ] =>
     rewrite (BODY x2 W k acts pc eq_refl TN RT eq_refl eq_refl
-                  ltac:(first [left; reflexivity | right; eexists; split; [exact I | reflexivity]]));
+                  ltac:(first [left; reflexivity | right; eexists; split; [| reflexivity]; exact I]));
     reflexivity
   end.
 
@@ -138,9 +138,9 @@ Proof.
     set (pc := match iter x with Some pc => pc | None => O end).
     set (x2 := with_gexec true (with_iter (Some pc) x1)).
     destruct (iter x).
-    + destruct (nth_error (d_script d) (Nat.pred pc)) as [[] |]; body_tac BODY x2 TN (upd_nth_twice _ r x1 x2 (rts w)).
-    + destruct (d_hasin d); body_tac BODY x2 TN (upd_nth_twice _ r x1 x2 (rts w)).
-  - destruct (d_hasin d); body_tac BODY x1 TN (eq_refl (upd_nth r x1 (rts w))).
+    + destruct (nth_error (d_script d) (Nat.pred pc)) as [[] |]; body_tac cn1 BODY x2 TN (upd_nth_twice _ r x1 x2 (rts w)).
+    + destruct (d_hasin d); body_tac cn1 BODY x2 TN (upd_nth_twice _ r x1 x2 (rts w)).
+  - destruct (d_hasin d); body_tac cn1 BODY x1 TN (eq_refl (upd_nth r x1 (rts w))).
 Qed.
 
 Lemma next_step_agree : forall n cn1 cn2, CN cn1 -> agree n cn1 cn2 ->
@@ -161,7 +161,9 @@ Proof.
 Qed.
 
 Lemma free_le_length : forall w, (free w <= length (rts w))%nat.
-Proof. intro w. unfold free. apply filter_length_le. Qed.
+Proof.
+  intro w. unfold free. induction (rts w) as [| a l IH]; simpl; [lia |]. destruct (idle a); simpl; lia.
+Qed.
 
 Lemma next_fuel_independent_l : forall f1 f2 r v w, good w ->
   (length (rts w) < f1)%nat -> (length (rts w) < f2)%nat ->
@@ -180,14 +182,12 @@ Proof.
   - destruct c; try reflexivity. simpl. apply next_fuel_independent_l; assumption.
   - destruct (queue w) as [| [t r] q]; [reflexivity |].
     rewrite (next_fuel_independent_l f1 f2 r VAwake (set_main_secs t (set_queue q w))); auto.
-    destruct (same_core_ok w (set_queue q w)) as [_ Ga]; [repeat split | exact G |].
-    destruct Ga as ((V & W & P) & L). split; [split; [exact V | split; [exact W | exact P]] | exact L].
 Qed.
 
 Lemma top_length : forall f o w, quiescent w -> length (rts (fst (top cfg defs f o w))) = length (rts w).
 Proof.
   intros f o w Q. pose proof Q as (G & C & N). destruct o as [c |]; simpl.
-  - destruct (do_call_ok defs (next_ cfg defs f) (next_ok defs f) c w G) as (A & _). apply A.
+  - destruct (do_call_ok (next_ cfg defs f) (next_ok defs f) c w G) as (A & _). apply A.
   - destruct (queue w) as [| [t r] q]; [reflexivity |].
     assert (G1 : good (set_main_secs t (set_queue q w))).
     { destruct (same_core_ok w (set_queue q w)) as [_ Ga]; [repeat split | exact G |].
